@@ -563,6 +563,9 @@ def r611(ctx, rep):
                     listed.add(x.targets[0].id)
             for outer in [x for x in own_nodes(fn.node) if isinstance(x, (ast.For, ast.While))]:
                 stored = {y.id for b in outer.body for y in ast.walk(b) if isinstance(y, ast.Name) and isinstance(y.ctx, ast.Store)}
+                # the loop variable of the outer loop is bound anew on every pass as well
+                if isinstance(outer, ast.For):
+                    stored |= {y.id for y in ast.walk(outer.target) if isinstance(y, ast.Name)}
                 for inner in [y for b in outer.body for y in ast.walk(b) if isinstance(y, ast.For)]:
                     if isinstance(inner.iter, ast.Name):
                         nm = inner.iter.id
